@@ -21,6 +21,31 @@ class StubTok(object):
     stream = StubStream()
 
 
+# conforming documents (content-model grammar of tools/conforming.py, every tag written out, values quoted) under every
+# conforming spelling of the doctype: "conforming documents record no errors"
+DOCTYPES = ["<!DOCTYPE html>", "<!doctype html>", "<!DOCTYPE HTML>", "<!DOCTYPE html >", "<!DOCTYPE HTML >", "<!DocType Html\n>",
+            "<!DOCTYPE html SYSTEM \"about:legacy-compat\">", "<!DOCTYPE HTML SYSTEM 'about:legacy-compat'>",
+            "<!doctype hTmL  system 'about:legacy-compat' >", "<!DOCTYPE\thtml>"]
+
+
+def conforming_source(seed, dt):
+    import random
+    import conforming
+    import realtrees
+    import html5lib
+    from html5lib.serializer import HTMLSerializer
+    while True:
+        g = conforming.Gen(random.Random(seed), foreign=False)
+        doc = realtrees.et_from_forest(g.document(2))
+        txt = HTMLSerializer(omit_optional_tags=False, quote_attr_values="always", inject_meta_charset=False,
+                             minimize_boolean_attributes=False).render(html5lib.getTreeWalker("etree")(doc))
+        if "<keygen" not in txt:      # the grammar still knows keygen (removed from HTML; the serializer writes </keygen>)
+            break
+        seed += 1
+    assert txt.startswith("<!DOCTYPE "), txt[:40]
+    return DOCTYPES[dt] + txt[txt.index(">") + 1:]
+
+
 class C16(Plugin):
     id = "C16"
     gen = ["Errors"]
@@ -59,6 +84,9 @@ class C16(Plugin):
                         keys.append(["extra", False])
                     calls.append([code, keys])
                 yield {"k": 0, "strict": rng.randint(0, 1), "calls": calls}
+            elif rng.random() < 0.25:
+                yield {"k": 1, "src": conforming_source(rng.randrange(10 ** 6), rng.randrange(len(DOCTYPES))), "frag": False,
+                       "conforming": True}
             else:
                 src = gen_markup.document(rng)
                 if rng.random() < 0.4:
@@ -129,6 +157,8 @@ class C16(Plugin):
             v.append(("strict-error-is-not-the-first-recorded", repr((exc, first_msg))))
         if exc and errs and strict_first and strict_first != [errs[0][0], errs[0][1]]:
             v.append(("strict-first-error-differs", repr((strict_first, errs[0]))))
+        if case.get("conforming") and errs:
+            v.append(("conforming-document-records-error", repr((errs[0], case["src"][:300]))))
         src = case["src"]
         nlines = 1 + src.replace("\r\n", "\n").replace("\r", "\n").count("\n")
         for pos, code, dv in errs:
